@@ -41,13 +41,19 @@ MANIFEST = dict(
          "true LCM whenever it stays below the cap and then every object's row index is integral and denotes its beat; with the cap the "
          "row is less than one row (1/96 beat) early; a written measure holds each placed note's symbol in its (row, column) cell and '0' "
          "elsewhere when no two notes share a cell; padding rows are keys wide for every key count; #TAG:value items and #SELECTABLE are "
-         "read back as written; the OLD header/padding behaviours are refuted by real witnesses. WHOLE FILE (C03_sm_write_denotes): for "
-         "every mapset of the decidable exact domain c03_domb (Formats/SMWriteDom.v: #OFFSET = first tempo point, shared on-grid tempo rows "
-         "with two-decimal beats, objects on the snap grid, no two events in one cell, true LCM of every measure <= 384) the writer "
-         "succeeds and every exact rendering of its tokens is a well-formed text whose sm_denote has the mapset's header fields and, per "
-         "chart and kind, a permutation of the chart's objects with equal columns, times and lengths. Outside the exact regime (cap "
-         "reached, tempo beats rounded to two decimals) the 1/96-beat bound is established per run by in-Coq evaluation of sm_denote on "
-         "the implementation's text, not proved.",
+         "read back as written; the OLD header/padding behaviours are refuted by real witnesses. WHOLE FILE, proved for ALL mapsets of two decidable domains "
+         "(Formats/SMWriteDom.v, stated through the timing SPEC functions beats_at/time_of, not the writer's output). c03_domb: tame "
+         "text fields, #OFFSET = first tempo point, tempo rows = ms form of an on-grid metronome-4 script with distinct two-decimal beats, "
+         "all charts literally the same rows, supported type, columns in range, holds > 0 and disjoint per column, every event time on the "
+         "snap grid of the active tempo, no two events with equal column and beat, TRUE lcm of every measure <= 384. "
+         "C03_sm_write_denotes: the writer succeeds and EVERY text that renders its tokens exactly is well-formed and its sm_denote has "
+         "the mapset's header fields and, chart by chart in order, the chart's header and per kind a permutation of the chart's objects "
+         "with equal columns, times and lengths (nothing invented, dropped or moved); C03_sm_write_spec: the same in the runner's oracle "
+         "form write_spec 0 true. C03_sm_write_cap_bound (c03_cap_domb: only 'no two objects in one written cell', more than 384 rows "
+         "allowed): same conclusion except that each object is read at the time of row floor(position*rows), whose beat wb satisfies "
+         "wb <= beat < wb + 4/384. Non-vacuity examples for both domains with literal rendered texts. The runner evaluates the exact "
+         "theorem's conclusion on the implementation's text for every generated case inside c03_domb. Not proved: positive rendering "
+         "tolerance, tempo beats that are not two-decimal (bound evaluated per run), binary64 rounding.",
     note="Trusted: Coq kernel+VM, generator/serialiser, table translator, repr(float) as a value oracle; binary64 rounding measured not proved. "
          "Former findings sm-selectable-no (16f3fe3), sm-pad-width (d872b70), rate-offset-unscaled (0398fe5) are fixed; the old "
          "behaviours survive only as named OLD variants for the _refuted witnesses; the runner accepts the current behaviour only.",
